@@ -27,6 +27,8 @@ type frame struct {
 	depth  int
 	id     string
 	seq    int // traversal order of the frame's creation
+	// mk: the MakeClosure instruction a closure frame was created at
+	mk *ssa.MakeClosure
 }
 
 func (f *frame) String() string { return f.id }
@@ -91,6 +93,7 @@ func (d *deepView) closureFrame(fr *frame, at ssa.Instruction, cf *ssa.Function)
 		return f
 	}
 	f := &frame{fn: cf, site: nil, parent: fr, depth: fr.depth, id: id}
+	f.mk, _ = at.(*ssa.MakeClosure)
 	d.frames[id] = f
 	return f
 }
@@ -240,6 +243,26 @@ func (d *deepView) resolve(v ssa.Value, fr *frame) dval {
 			}
 			v, fr = args[idx], fr.parent
 		case *ssa.FreeVar:
+			// the closure frame knows the instruction that bound its free variables
+			// (also for the synthetic wrappers of method values, which have no parent)
+			var own *frame
+			for f := fr; f != nil && own == nil; f = f.parent {
+				if f.fn == x.Parent() && f.mk != nil {
+					own = f
+				}
+			}
+			if own != nil {
+				idx := -1
+				for k, fv := range own.fn.FreeVars {
+					if fv == x {
+						idx = k
+					}
+				}
+				if idx >= 0 && idx < len(own.mk.Bindings) && own.parent != nil {
+					v, fr = own.mk.Bindings[idx], own.parent
+					continue
+				}
+			}
 			b := ir.FreeVarBinding(x)
 			if b == nil {
 				return dval{v, fr}
